@@ -248,4 +248,212 @@ def rule (ts : List Int) (vals : List V) (ends : List Int) (period : Int)
   | none => none
   | some s => some (ruleFrom (fun v => greedyVals.contains v) evs 0 ends.length s)
 
+/-! ## Part 3: container operations (C11) -/
+
+/-- `_lookup(dump)` for one dump: index of the value in effect (`searchsorted(side='right') - 1`,
+    IndexError outside the event range) -/
+def Cat.lookup1 (c : Cat V) (d : Int) : Except Err Nat :=
+  let k := (c.ev.takeWhile (fun (e : Nat) => decide ((e : Int) ≤ d))).length
+  if k = 0 ∨ c.idx.length ≤ k - 1 then .error .index else getNat c.idx (k - 1)
+
+/-- `_lookup(dumps)` for a sequence: IndexError if any dump is outside -/
+def Cat.lookupMany (c : Cat V) : List Int → Except Err (List Nat)
+  | [] => pure []
+  | d :: t => do
+    let i ← c.lookup1 d
+    let r ← c.lookupMany t
+    pure (i :: r)
+
+/-- keys accepted by `__getitem__` -/
+inductive Key
+  | int (i : Int)
+  | slice (a b c : Option Int)
+  | mask (m : List Bool)
+  | list (l : List Int)
+  deriving Repr, DecidableEq
+
+/-- result of `__getitem__`: a single value or a sequence of values -/
+inductive Got (V : Type)
+  | one (v : V)
+  | many (vs : List V)
+  deriving Repr, DecidableEq
+
+def valuesAt (c : Cat V) : List Nat → Except Err (List V)
+  | [] => pure []
+  | i :: t => do
+    let v ← getNat c.uniq i
+    let r ← valuesAt c t
+    pure (v :: r)
+
+/-- `CategoricalData.__getitem__` -/
+def Cat.getitem (c : Cat V) : Key → Except Err (Got V)
+  | .int i => do
+    let k ← c.lookup1 i
+    let v ← getNat c.uniq k
+    pure (.one v)
+  | .slice a b st =>
+    -- key = list(range(*key.indices(self.events[-1])))
+    match c.ev.getLast? with
+    | none => .error .index
+    | some n =>
+      match sliceList n a b st with
+      | none => .error .value
+      | some l => do
+        let ks ← c.lookupMany l
+        let vs ← valuesAt c ks
+        pure (.many vs)
+  | .mask m =>
+    match c.ev.getLast? with
+    | none => .error .index
+    | some n =>
+      -- a bool sequence of the right length selects the dumps where it is True,
+      -- any other bool sequence is taken as the integers 0 / 1
+      let dumps : List Int := if m.length = n then (nonzero m).map Int.ofNat
+        else m.map (fun b => if b then 1 else 0)
+      do
+        let ks ← c.lookupMany dumps
+        let vs ← valuesAt c ks
+        pure (.many vs)
+  | .list l => do
+    let ks ← c.lookupMany l
+    let vs ← valuesAt c ks
+    pure (.many vs)
+
+/-- `_bool_per_dump([p(value) for value in unique_values])`: comparison operators.  Dumps before
+    the first event are left uninitialised by the code (`np.empty`): `none`. -/
+def Cat.cmpPerDump (c : Cat V) (p : V → Bool) : List (Option Bool) :=
+  List.replicate (c.ev.headD 0) none ++ expand c.ev (c.idx.map (fun i => (c.uniq.map p)[i]?))
+
+/-- `_comparable_values.index(value)` -/
+def indexOf? (l : List V) (v : V) : Option Nat :=
+  if v ∈ l then some (l.idxOf v) else none
+
+/-- `CategoricalData.add(event, value)` (`value = none` duplicates the current value) -/
+def Cat.add (c : Cat V) (event : Nat) (value : Option V) : Except Err (Cat V) := do
+  let (uniq', vi) ← (match value with
+    | some v =>
+      match indexOf? c.uniq v with
+      | some i => pure (c.uniq, i)
+      | none => pure (c.uniq ++ [v], c.uniq.length)
+    | none => do
+      let i ← c.lookup1 event
+      pure (c.uniq, i) : Except Err (List V × Nat))
+  -- event_index = self.events.searchsorted(event)
+  let ei := (c.ev.takeWhile (fun e => decide (e < event))).length
+  -- self.events[event_index] == event
+  let e ← getNat c.ev ei
+  let after := if e = event then ei + 1 else ei
+  pure { uniq := uniq', idx := c.idx.take ei ++ [vi] ++ c.idx.drop after,
+         ev := c.ev.take ei ++ [event] ++ c.ev.drop after }
+
+/-- keep the entries of `l` whose flag is set -/
+def maskSelect {α : Type} : List α → List Bool → List α
+  | a :: t, true :: m => a :: maskSelect t m
+  | _ :: t, false :: m => maskSelect t m
+  | _, _ => []
+
+/-- `CategoricalData.remove(value)` -/
+def Cat.remove (c : Cat V) (v : V) : Except Err (Cat V) :=
+  match indexOf? c.uniq v with
+  | none => pure c
+  | some k =>
+    let keep := c.idx.map (fun i => decide (i ≠ k))
+    -- boolean mask indexing needs matching lengths; events[-1] needs a non-empty array
+    if c.ev.length ≠ c.idx.length + 1 then .error .index else
+    pure { uniq := c.uniq.eraseIdx k,
+           idx := (maskSelect c.idx keep).map (fun i => if k ≤ i then i - 1 else i),
+           ev := maskSelect c.ev.dropLast keep ++ [c.ev.getLastD 0] }
+
+def absDiff (a b : Nat) : Nat := if a ≤ b then b - a else a - b
+
+/-- `CategoricalData.add_unmatched(segments, match_dist)` -/
+def Cat.addUnmatched (c : Cat V) (segments : List Nat) (matchDist : Nat) : Except Err (Cat V) :=
+  if c.ev = [] then .error .value else
+  let unmatched := segments.filter (fun s => decide (matchDist < (c.ev.map (absDiff s)).foldl min (absDiff s (c.ev.headD 0))))
+  unmatched.foldlM (fun (acc : Cat V) s =>
+    match acc.add s none with
+    | .ok c' => pure c'
+    | .error .index => pure acc
+    | .error e => .error e) c
+
+/-- position of the first minimum of `f` over `l` (np.argmin) -/
+def argminFirst (l : List Nat) : Nat :=
+  match l with
+  | [] => 0
+  | a :: t => (t.foldl (fun (acc : Nat × Nat × Nat) x =>
+      if x < acc.2.1 then (acc.2.2, x, acc.2.2 + 1) else (acc.1, acc.2.1, acc.2.2 + 1)) (0, a, 1)).1
+
+/-- positions `j` with `l[j+1] > l[j]` (`np.nonzero(np.diff(l) > 0)`) -/
+def risesFrom : Nat → List Nat → List Nat
+  | k, a :: b :: t => if a < b then k :: risesFrom (k + 1) (b :: t) else risesFrom (k + 1) (b :: t)
+  | _, _ => []
+
+/-- `CategoricalData.align(segments)` -/
+def Cat.align (c : Cat V) (segments : List Nat) : Except Err (Cat V) := do
+  if segments = [] then throw Err.value
+  -- each event moves onto the closest segment start (first one on ties)
+  let moved := c.ev.map (fun e => segments.getD (argminFirst (segments.map (absDiff e))) 0)
+  let final := risesFrom 0 moved
+  let sel ← takeIdx c.idx final
+  -- subset, indices = np.unique(indices[final], return_inverse=True)
+  if sel.any (fun i => decide (c.uniq.length ≤ i)) then throw Err.index
+  let subset := (List.range c.uniq.length).filter (fun i => sel.contains i)
+  let uniq' ← takeIdx c.uniq subset
+  let evs ← takeIdx moved final
+  match moved.getLast? with
+  | none => throw Err.index
+  | some last =>
+    pure { uniq := uniq', idx := sel.map (fun i => subset.idxOf i), ev := evs ++ [last] }
+
+/-- `CategoricalData.partition(segments)`: one container per segment, sharing `unique_values` -/
+def Cat.partition (c : Cat V) (segments : List Nat) : Except Err (List (Cat V)) := do
+  let events := c.ev.dropLast
+  if events.length ≠ c.idx.length then throw Err.index
+  let rec go : List Nat → Except Err (List (Cat V))
+    | start :: stop :: rest => do
+      -- initial index: last event at or before `start`, clipped into range
+      let k := (events.takeWhile (fun e => decide (e ≤ start))).length
+      let pos := if k = 0 then 0 else min (k - 1) (events.length - 1)
+      let initial ← getNat c.idx pos
+      let mask := events.map (fun e => decide (start ≤ e ∧ e < stop))
+      let idx' := maskSelect c.idx mask
+      let ev' := (maskSelect events mask).map (fun e => e - start)
+      let part : Cat V :=
+        if ev'.head? = some 0 then { uniq := c.uniq, idx := idx', ev := ev' ++ [stop - start] }
+        else { uniq := c.uniq, idx := initial :: idx', ev := 0 :: ev' ++ [stop - start] }
+      let r ← go (stop :: rest)
+      pure (part :: r)
+    | _ => pure []
+  go segments
+
+/-- first element and every later element that differs from its predecessor, applied to
+    (index, event) pairs: `changes = np.nonzero([1] + np.diff(self.indices).tolist())` -/
+def Cat.removeRepeats (c : Cat V) : Except Err (Cat V) :=
+  if c.idx = [] ∨ c.ev.length < c.idx.length then .error .index else
+  let kept := keepChanges none (List.zip c.idx c.ev)
+  pure { uniq := c.uniq, idx := kept.map (·.1), ev := kept.map (·.2) ++ [c.ev.getLastD 0] }
+
+/-- `concatenate_categorical(split_data, allow_repeats)` -/
+def concatenate (parts : List (Cat V)) (allowRepeats : Bool) : Except Err (Cat V) :=
+  match parts with
+  | [] => .error .value
+  | [c] => pure c
+  | _ => do
+    if parts.any (fun c => c.ev = []) then throw Err.index
+    let starts := cumsum0 (parts.map Cat.numDumps)
+    let r := uniqueInOrder (parts.map (·.uniq)).flatten
+    -- remap each part's indices through its slice of the inverse
+    let rec go : List (Cat V) → Nat → List Nat → Except Err (List Nat × List Nat)
+      | [], _, _ => pure ([], [])
+      | c :: t, off, st :: sts => do
+        let lookup := (r.2.drop off).take c.uniq.length
+        let idx' ← takeIdx lookup c.idx
+        let ev' := c.ev.dropLast.map (· + st)
+        let rest ← go t (off + c.uniq.length) sts
+        pure (idx' ++ rest.1, ev' ++ rest.2)
+      | _ :: _, _, [] => throw Err.index
+    let ie ← go parts 0 starts
+    let data : Cat V := { uniq := r.1, idx := ie.1, ev := ie.2 ++ [starts.getLastD 0] }
+    if allowRepeats then pure data else data.removeRepeats
+
 end Categorical
